@@ -10,7 +10,7 @@ late = [sid for sid, m in rows if re.search(r'first (MISSED|UNDECIDED)|would hav
 esc = lambda t: t.replace('|', '\\|')
 txt = '''## 9. Seeded changes (independent sub-agents, each given only the property text and a scratch worktree)
 
-%d changes in seven batches. Each was produced by a fresh sub-agent that saw only the property text (plus, from batch 2 on, a one-line
+%d changes in eight batches. Each was produced by a fresh sub-agent that saw only the property text (plus, from batch 2 on, a one-line
 "do not reuse this site" hint naming earlier changes) and its own worktree under /tmp; each was **confirmed** with
 `tools/seed_confirm.sh` (existing suite passes with the change; the demonstration fails with it and passes without it; log in
 `seeded/<id>/confirm.log`) and **evaluated** with `tools/seed_eval.sh` (the change applied in a scratch worktree, the checks pointed at
@@ -35,7 +35,11 @@ a property that claims only the safety part of a unit stays undecided, not viola
 C01-1). Batch 7 (after the stage machine came under contract): obligations spliced INTO the code (closure postconditions) need the same
 property tags as contract clauses (C08-4); a driver that replays only genuine traffic cannot replay a decoder bypass (C01-3); where a
 refactoring makes a unit uncompilable and the function as a whole is outside Verus (labelled `continue`), only a node-level driver
-decides (C14-2, C06-4) - two were written (own_addresses.rs, init_negotiation.rs).
+decides (C14-2, C06-4) - two were written (own_addresses.rs, init_negotiation.rs). Batch 8 (refactorings at node level): a property must
+list EVERY obligation its statement depends on, also those first written for a neighbouring property (C13-4: the disconnect sites; C10-3:
+the mode table) - otherwise the neighbour's check reports the change and the property's own check is silent; block anchors should be as
+short as the statement allows (C10-3); node-level drivers need restart and injection scenarios (C15-4, C02-4) - node_isolation.rs written,
+node_peers.rs extended.
 '''
 p = os.path.join(V, 'DESIGN.md')
 s = open(p).read()
